@@ -196,12 +196,363 @@ theorem C05_frame (S : Schema) (ty : Nat) (u : Updater) (dst src : Fields) (r : 
           | none => rw [hd'] at h; cases h
           | some d' => rw [hd'] at h; simp at h; rw [← h, hreset _ _ hd', h3, h2]
 
+/-- **C05_frame_nil_mask** (full strength for a nil update mask, at any depth).  With a nil update
+mask ("all writable fields") and writable fields `W` (non-empty, paths non-empty without empty
+segments; with `W` nil everything is writable and nothing is framed): every path `p`, at any depth,
+that is unrelated to every writable path and every reset path holds after the write exactly what it
+held before.  Same tree hypotheses as `C05_frame`. -/
+theorem C05_frame_nil_mask (S : Schema) (ty : Nat) (u : Updater) (dst src : Fields) (r : Merged)
+    (w : Path) (ws : List Path) (p : Path)
+    (hM : u.update = none) (hW : u.writable = some (w :: ws)) (hWc : Clean (w :: ws)) (hWn : NonNil (w :: ws))
+    (hp : p ≠ []) (hpW : Unrelated p (w :: ws))
+    (hR : ∀ R, u.reset = some R → Clean R ∧ Unrelated p R)
+    (hdisp : NoDispAlong S ty p)
+    (hnd : NoDupAlong p dst) (hns : NoDupAlong p src) (hag : Agree p dst src)
+    (h : merge S ty u dst src = some r) :
+    r.dst.getPath p = dst.getPath p := by
+  have hreset : ∀ d d', resetDst u d = some d' → d'.getPath p = d.getPath p := by
+    intro d d' hd'
+    unfold resetDst at hd'
+    cases hr : u.reset with
+    | none => rw [hr] at hd'; simp at hd'; rw [hd']
+    | some R =>
+      rw [hr] at hd'
+      obtain ⟨hRc, hRu⟩ := hR R hr
+      exact getPath_pruneMsg_misses p _ d d' (misses_nestedMask hRc hp hRu) hd'
+  have hne := nestedMask_not_empty hWc hWn (by simp)
+  have hmiss := misses_nestedMask hWc hp hpW
+  unfold merge at h
+  simp only [hW, hM] at h
+  rw [if_neg (by simp)] at h
+  simp only [Option.isNone_some, Bool.false_eq_true, if_false] at h
+  split at h
+  · cases h
+  next src1 hf1 =>
+    cases hd1 : pruneMsg (nestedMask (w :: ws)) dst with
+    | none => rw [hd1] at h; simp at h
+    | some dst1 =>
+      rw [hd1] at h
+      have hg1 : dst1.getPath p = dst.getPath p := getPath_pruneMsg_misses p _ dst dst1 hmiss hd1
+      have hsh := shape_pruneMsg p _ dst dst1 src hd1 hnd hag
+      unfold filterMsg at hf1
+      simp only [hne, Bool.false_eq_true, if_false] at hf1
+      have hready := mergeReady_filterFields p _ dst1 src src1 hmiss hf1 hns hsh.2
+      have hs1 := noDupAlong_filterFields p _ src src1 hf1 hns
+      simp only [Option.getD_none] at h
+      have hnil : nestedMask [] = Mask.nil := rfl
+      rw [hnil] at h
+      have hfm : filterMsg Mask.nil src1 = some src1 := by simp [filterMsg, Mask.isEmpty]
+      rw [hfm] at h
+      simp only at h
+      have h2 := getPath_mergeFields S p ty dst1 src1 hready hdisp
+      have hn2 := noDupAlong_mergeFields S p ty dst1 src1 hsh.1 hs1 hdisp hready
+      split at h
+      · cases h
+      next d3 hd3 =>
+        have h3 := getPath_pruneEmpty_misses p _ src1 _ d3 (misses_nil p hp) hn2 hd3
+        cases hd' : resetDst u d3 with
+        | none => rw [hd'] at h; cases h
+        | some d' => rw [hd'] at h; simp at h; rw [← h, hreset _ _ hd', h3, h2, hg1]
+
+/-- **C05_named_path** (non-nil update mask, any depth).  Let `p` be an *outermost* path of the update
+mask (`p ∈ M` and no path of `M` is a proper prefix of `p` — `{f, f.c}` names `f`), inside the writable
+fields (`W` nil, or some writable path is a prefix of `p`: what `Validate` enforces) and unrelated to
+every reset path.  Then after the write
+
+  `result.getPath p = (src.getPath p).map (mergeVal (dst.getPath p))`
+
+i.e. **absent from the written message ⇒ cleared** (whether the leaf or any of its parent messages
+is what is absent; stored parents are kept and only `p` is removed from them), **present ⇒ merged into
+what is stored at `p`** with `proto.Merge`'s rules (`mergeVal`): a scalar overwrites, a singular
+message is merged field-wise (created if absent), a repeated field is *appended* to the stored list, a
+map replaces per key.  Hypotheses about the trees: unique keys along `p` in both messages
+(`NoDupAlong`) and no oneof displacement along `p` (`NoDispAlong`); no kind-agreement hypothesis is
+needed here. -/
+theorem C05_named_path (S : Schema) (ty : Nat) (u : Updater) (dst src : Fields) (r : Merged)
+    (m : Path) (ms : List Path) (p : Path)
+    (hM : u.update = some (m :: ms)) (hMc : Clean (m :: ms)) (hMn : NonNil (m :: ms))
+    (hp : p ∈ m :: ms) (hout : ∀ q ∈ m :: ms, strictPrefix q p = false)
+    (hW : ∀ W, u.writable = some W → Clean W ∧ NonNil W ∧ ∃ w ∈ W, w <+: p)
+    (hR : ∀ R, u.reset = some R → Clean R ∧ Unrelated p R)
+    (hdisp : NoDispAlong S ty p) (hnd : NoDupAlong p dst) (hns : NoDupAlong p src)
+    (h : merge S ty u dst src = some r) :
+    r.dst.getPath p = (src.getPath p).map (mergeVal S (childAt S ty p) (dst.getPath p)) := by
+  have hp0 : p ≠ [] := hMn p hp
+  have hpmin : p ∈ minimal (m :: ms) := mem_minimal.mpr ⟨hp, hout⟩
+  have hreset : ∀ d d', resetDst u d = some d' → d'.getPath p = d.getPath p := by
+    intro d d' hd'
+    unfold resetDst at hd'
+    cases hr : u.reset with
+    | none => rw [hr] at hd'; simp at hd'; rw [hd']
+    | some R =>
+      rw [hr] at hd'
+      obtain ⟨hRc, hRu⟩ := hR R hr
+      exact getPath_pruneMsg_misses p _ d d' (misses_nestedMask hRc hp0 hRu) hd'
+  -- the writable filter keeps everything at and below p
+  have hwf : ∀ src1, filterMsg (match u.writable with | some W => nestedMask W | none => Mask.nil) src = some src1 →
+      src1.getPath p = src.getPath p ∧ NoDupAlong p src1 := by
+    intro src1 hf1
+    cases hw : u.writable with
+    | none =>
+      rw [hw] at hf1
+      simp [filterMsg, Mask.isEmpty] at hf1
+      subst hf1; exact ⟨rfl, hns⟩
+    | some W =>
+      rw [hw] at hf1
+      obtain ⟨hWc, hWn, w, hwm, hwp⟩ := hW W hw
+      have hWne : W ≠ [] := fun e => by subst e; cases hwm
+      unfold filterMsg at hf1
+      rw [nestedMask_not_empty hWc hWn hWne] at hf1
+      simp only [Bool.false_eq_true, if_false] at hf1
+      refine ⟨?_, noDupAlong_filterFields p _ src src1 hf1 hns⟩
+      unfold nestedMask at hf1
+      rw [Mask.fromPaths_eq (clean_minimal hWc)] at hf1
+      obtain ⟨q, hq, hqw⟩ := exists_minimal_prefix W w.length w (Nat.le_refl _) hwm
+      exact getPath_filterFields_covered p (minimal W) src src1 (prefixFree_minimal W)
+        ⟨q, hq, nonNil_minimal hWn q hq, List.IsPrefix.trans hqw hwp⟩ hf1
+  have hWne : u.writable ≠ some [] := by
+    intro e
+    obtain ⟨_, _, w, hwm, _⟩ := hW [] e
+    cases hwm
+  unfold merge at h
+  simp only [hWne, if_false, hM] at h
+  split at h
+  · cases h
+  next src1 hf1 =>
+    obtain ⟨hs1, hn1⟩ := hwf src1 hf1
+    simp only [Option.getD_some] at h
+    have hne := nestedMask_not_empty hMc hMn (by simp)
+    split at h
+    · cases h
+    next src2 hf2 =>
+      unfold filterMsg at hf2
+      simp only [hne, Bool.false_eq_true, if_false] at hf2
+      split at h
+      · cases h
+      next d3 hd3 =>
+        unfold nestedMask at hf2 hd3
+        rw [Mask.fromPaths_eq (clean_minimal hMc)] at hf2 hd3
+        have hcore := getPath_core_named S p (minimal (m :: ms)) ty dst src1 src2 d3 (prefixFree_minimal _)
+          hpmin hp0 hdisp hnd hn1 hf2 hd3
+        cases hd' : resetDst u d3 with
+        | none => rw [hd'] at h; cases h
+        | some d' => rw [hd'] at h; simp at h; rw [← h, hreset _ _ hd', hcore, hs1]
+
+/-- **C05_scalar_in** (named scalar paths, non-nil update mask).  Under the hypotheses of
+`C05_named_path`, if the written message holds a scalar at `p` or nothing at all (no message, list
+or map there), the result holds at `p` exactly what the written message holds: its scalar, or
+nothing — *absent there means cleared*, whichever of `p`'s parents exist in the written message. -/
+theorem C05_scalar_in (S : Schema) (ty : Nat) (u : Updater) (dst src : Fields) (r : Merged)
+    (m : Path) (ms : List Path) (p : Path)
+    (hM : u.update = some (m :: ms)) (hMc : Clean (m :: ms)) (hMn : NonNil (m :: ms))
+    (hp : p ∈ m :: ms) (hout : ∀ q ∈ m :: ms, strictPrefix q p = false)
+    (hW : ∀ W, u.writable = some W → Clean W ∧ NonNil W ∧ ∃ w ∈ W, w <+: p)
+    (hR : ∀ R, u.reset = some R → Clean R ∧ Unrelated p R)
+    (hdisp : NoDispAlong S ty p) (hnd : NoDupAlong p dst) (hns : NoDupAlong p src)
+    (hsc : ∀ v, src.getPath p = some v → ∃ s, v = .sc s)
+    (h : merge S ty u dst src = some r) :
+    r.dst.getPath p = src.getPath p := by
+  rw [C05_named_path S ty u dst src r m ms p hM hMc hMn hp hout hW hR hdisp hnd hns h]
+  cases hs : src.getPath p with
+  | none => rfl
+  | some v =>
+    obtain ⟨s, rfl⟩ := hsc v hs
+    simp [mergeVal]
+
+/-- **C05_message_list** (message / repeated / map fields named by the update mask).  Under the
+hypotheses of `C05_named_path` the FieldMask update semantics the code implements is:
+absent from the written message ⇒ cleared; a singular message is merged field-wise into the stored
+one (replacing a stored non-message, created when nothing is stored); a repeated field is appended to
+the stored list; a map replaces per key and keeps the other stored keys. -/
+theorem C05_message_list (S : Schema) (ty : Nat) (u : Updater) (dst src : Fields) (r : Merged)
+    (m : Path) (ms : List Path) (p : Path)
+    (hM : u.update = some (m :: ms)) (hMc : Clean (m :: ms)) (hMn : NonNil (m :: ms))
+    (hp : p ∈ m :: ms) (hout : ∀ q ∈ m :: ms, strictPrefix q p = false)
+    (hW : ∀ W, u.writable = some W → Clean W ∧ NonNil W ∧ ∃ w ∈ W, w <+: p)
+    (hR : ∀ R, u.reset = some R → Clean R ∧ Unrelated p R)
+    (hdisp : NoDispAlong S ty p) (hnd : NoDupAlong p dst) (hns : NoDupAlong p src)
+    (h : merge S ty u dst src = some r) :
+    (src.getPath p = none → r.dst.getPath p = none) ∧
+    (∀ sf, src.getPath p = some (.msg sf) →
+      (∀ df, dst.getPath p = some (.msg df) →
+        r.dst.getPath p = some (.msg (mergeFields S (childAt S ty p) df sf))) ∧
+      ((∀ df, dst.getPath p ≠ some (.msg df)) → r.dst.getPath p = some (.msg sf))) ∧
+    (∀ xs, src.getPath p = some (.scs xs) →
+      (∀ ys, dst.getPath p = some (.scs ys) → r.dst.getPath p = some (.scs (ys ++ xs))) ∧
+      ((∀ ys, dst.getPath p ≠ some (.scs ys)) → r.dst.getPath p = some (.scs xs))) ∧
+    (∀ xs, src.getPath p = some (.msgs xs) →
+      (∀ ys, dst.getPath p = some (.msgs ys) → r.dst.getPath p = some (.msgs (ys.append xs))) ∧
+      ((∀ ys, dst.getPath p ≠ some (.msgs ys)) → r.dst.getPath p = some (.msgs xs))) ∧
+    (∀ es, src.getPath p = some (.map es) →
+      (∀ ds, dst.getPath p = some (.map ds) → r.dst.getPath p = some (.map (mapMerge ds es))) ∧
+      ((∀ ds, dst.getPath p ≠ some (.map ds)) → r.dst.getPath p = some (.map es))) := by
+  have key := C05_named_path S ty u dst src r m ms p hM hMc hMn hp hout hW hR hdisp hnd hns h
+  refine ⟨fun hs => by rw [key, hs]; rfl, ?_, ?_, ?_, ?_⟩
+  · intro sf hs
+    rw [key, hs]
+    refine ⟨fun df hd => by rw [hd]; simp [mergeVal], fun hd => ?_⟩
+    simp only [Option.map_some]
+    rw [mergeVal_old_nonmsg S _ _ sf hd]
+  · intro xs hs
+    rw [key, hs]
+    refine ⟨fun ys hd => by rw [hd]; simp [mergeVal], fun hd => ?_⟩
+    simp only [Option.map_some, mergeVal]
+  · intro xs hs
+    rw [key, hs]
+    refine ⟨fun ys hd => by rw [hd]; simp [mergeVal], fun hd => ?_⟩
+    simp only [Option.map_some, mergeVal]
+  · intro es hs
+    rw [key, hs]
+    refine ⟨fun ds hd => by rw [hd]; simp [mergeVal], fun hd => ?_⟩
+    simp only [Option.map_some, mergeVal]
+
+/-- **C05_inside_written** (below a named path, non-nil update mask).  Let `q` be an outermost update
+path as in `C05_named_path` and `p = q ++ t` a path strictly below it.  Whatever the written message
+holds at `p` is, after the write, merged into what was stored at `p` (`mergeVal`): in particular a
+scalar written at `p` is the result's value at `p`.  (What the written message does *not* hold below a
+named message is kept from the stored message when the written message has the named message `q`
+— FieldMask "merge into the existing sub-message" — and is cleared together with `q` when it has
+not: that is `C05_named_path` at `q`.) -/
+theorem C05_inside_written (S : Schema) (ty : Nat) (u : Updater) (dst src : Fields) (r : Merged)
+    (m : Path) (ms : List Path) (q t : Path) (v : Val)
+    (hM : u.update = some (m :: ms)) (hMc : Clean (m :: ms)) (hMn : NonNil (m :: ms))
+    (hq : q ∈ m :: ms) (hout : ∀ q' ∈ m :: ms, strictPrefix q' q = false)
+    (hW : ∀ W, u.writable = some W → Clean W ∧ NonNil W ∧ ∃ w ∈ W, w <+: q)
+    (hR : ∀ R, u.reset = some R → Clean R ∧ Unrelated q R)
+    (ht : t ≠ [])
+    (hdisp : NoDispAlong S ty (q ++ t)) (hnd : NoDupAlong (q ++ t) dst) (hns : NoDupAlong (q ++ t) src)
+    (hsv : src.getPath (q ++ t) = some v)
+    (h : merge S ty u dst src = some r) :
+    r.dst.getPath (q ++ t) = some (mergeVal S (childAt S ty (q ++ t)) (dst.getPath (q ++ t)) v) := by
+  have hq0 : q ≠ [] := hMn q hq
+  obtain ⟨hdq, hdt⟩ := noDispAlong_append S q t ty hdisp
+  obtain ⟨hndq, _⟩ := noDupAlong_append q t dst hnd
+  obtain ⟨hnsq, hnst⟩ := noDupAlong_append q t src hns
+  have key := C05_named_path S ty u dst src r m ms q hM hMc hMn hq hout hW hR hdq hndq hnsq h
+  rw [getPath_append q t src hq0 ht] at hsv
+  rw [getPath_append q t r.dst hq0 ht, getPath_append q t dst hq0 ht, childAt_append]
+  cases hsq : src.getPath q with
+  | none => rw [hsq] at hsv; cases hsv
+  | some w =>
+    rw [hsq] at hsv key
+    cases w with
+    | msg sf =>
+      simp only at hsv
+      simp only [Option.map_some] at key
+      cases hdq' : dst.getPath q with
+      | some x =>
+        cases x with
+        | msg df =>
+          rw [hdq'] at key
+          simp only [mergeVal] at key
+          rw [key]
+          simp only
+          exact getPath_mergeFields_present S t (childAt S ty q) df sf v hsv (hnst hq0 sf hsq) hdt
+        | sc _ =>
+          rw [hdq', mergeVal_old_nonmsg S _ _ sf (by simp)] at key
+          rw [key]; simp [hsv, mergeVal_none]
+        | scs _ =>
+          rw [hdq', mergeVal_old_nonmsg S _ _ sf (by simp)] at key
+          rw [key]; simp [hsv, mergeVal_none]
+        | msgs _ =>
+          rw [hdq', mergeVal_old_nonmsg S _ _ sf (by simp)] at key
+          rw [key]; simp [hsv, mergeVal_none]
+        | map _ =>
+          rw [hdq', mergeVal_old_nonmsg S _ _ sf (by simp)] at key
+          rw [key]; simp [hsv, mergeVal_none]
+      | none =>
+        rw [hdq', mergeVal_old_nonmsg S _ _ sf (by simp)] at key
+        rw [key]; simp [hsv, mergeVal_none]
+    | sc _ => simp at hsv
+    | scs _ => simp at hsv
+    | msgs _ => simp at hsv
+    | map _ => simp at hsv
+
+/-- **C05_inside_nil_mask** (nil update mask: "all writable fields", any depth).  With a nil update
+mask every path `p` at or below a writable path (any path when `W` is nil) and unrelated to every
+reset path holds after the write exactly what the written message holds there — scalar, message,
+list or map alike, *absent there means cleared*: the stored writable part is pruned first, so
+nothing is merged or appended.  Tree hypotheses: unique keys along `p` in the written message, no
+oneof displacement along `p`. -/
+theorem C05_inside_nil_mask (S : Schema) (ty : Nat) (u : Updater) (dst src : Fields) (r : Merged) (p : Path)
+    (hM : u.update = none) (hp : p ≠ [])
+    (hW : ∀ W, u.writable = some W → Clean W ∧ NonNil W ∧ ∃ w ∈ W, w <+: p)
+    (hR : ∀ R, u.reset = some R → Clean R ∧ Unrelated p R)
+    (hdisp : NoDispAlong S ty p) (hns : NoDupAlong p src)
+    (h : merge S ty u dst src = some r) :
+    r.dst.getPath p = src.getPath p := by
+  have hreset : ∀ d d', resetDst u d = some d' → d'.getPath p = d.getPath p := by
+    intro d d' hd'
+    unfold resetDst at hd'
+    cases hr : u.reset with
+    | none => rw [hr] at hd'; simp at hd'; rw [hd']
+    | some R =>
+      rw [hr] at hd'
+      obtain ⟨hRc, hRu⟩ := hR R hr
+      exact getPath_pruneMsg_misses p _ d d' (misses_nestedMask hRc hp hRu) hd'
+  -- after dst has been reset / pruned and src filtered, merging gives src's value at p
+  have core : ∀ dst1 src1 d3, dst1.getPath p = none → src1.getPath p = src.getPath p → NoDupAlong p src1 →
+      pruneEmpty Mask.nil src1 (mergeFields S ty dst1 src1) = some d3 → d3.getPath p = src.getPath p := by
+    intro dst1 src1 d3 hd1 hs1 hn1 hd3
+    rw [pruneEmpty_nil] at hd3
+    cases hd3
+    cases hsp : src.getPath p with
+    | none =>
+      rw [hsp] at hs1
+      exact getPath_mergeFields_absent S p ty dst1 src1 hd1 hs1 hn1 hdisp
+    | some v =>
+      rw [hsp] at hs1
+      rw [getPath_mergeFields_present S p ty dst1 src1 v hs1 hn1 hdisp, hd1, mergeVal_none]
+  have hnil : nestedMask [] = Mask.nil := rfl
+  have hfm : ∀ x, filterMsg Mask.nil x = some x := fun x => by simp [filterMsg, Mask.isEmpty]
+  unfold merge at h
+  cases hw : u.writable with
+  | none =>
+    simp only [hw, hM, reduceCtorEq, if_false, Option.isNone_none, if_true, Option.getD_none, hnil, hfm] at h
+    split at h
+    · cases h
+    next d3 hd3 =>
+      have := core .nil src d3 (getPath_nil p) rfl hns hd3
+      cases hd' : resetDst u d3 with
+      | none => rw [hd'] at h; cases h
+      | some d' => rw [hd'] at h; simp at h; rw [← h, hreset _ _ hd', this]
+  | some W =>
+    obtain ⟨hWc, hWn, w, hwm, hwp⟩ := hW W hw
+    have hWne : W ≠ [] := fun e => by subst e; cases hwm
+    simp only [hw, hM] at h
+    rw [if_neg (by simpa using hWne)] at h
+    simp only [Option.isNone_some, Bool.false_eq_true, if_false, Option.getD_none, hnil] at h
+    split at h
+    · cases h
+    next src1 hf1 =>
+      cases hd1 : pruneMsg (nestedMask W) dst with
+      | none => rw [hd1] at h; simp at h
+      | some dst1 =>
+        rw [hd1] at h
+        simp only [hfm] at h
+        have hg1 : dst1.getPath p = none := getPath_reset_cleared hWc hWn hwm hwp dst dst1 hd1
+        unfold filterMsg at hf1
+        rw [nestedMask_not_empty hWc hWn hWne] at hf1
+        simp only [Bool.false_eq_true, if_false] at hf1
+        have hn1 := noDupAlong_filterFields p _ src src1 hf1 hns
+        unfold nestedMask at hf1
+        rw [Mask.fromPaths_eq (clean_minimal hWc)] at hf1
+        obtain ⟨q, hq, hqw⟩ := exists_minimal_prefix W w.length w (Nat.le_refl _) hwm
+        have hs1 := getPath_filterFields_covered p (minimal W) src src1 (prefixFree_minimal W)
+          ⟨q, hq, nonNil_minimal hWn q hq, List.IsPrefix.trans hqw hwp⟩ hf1
+        split at h
+        · cases h
+        next d3 hd3 =>
+          have := core dst1 src1 d3 hg1 hs1 hn1 hd3
+          cases hd' : resetDst u d3 with
+          | none => rw [hd'] at h; cases h
+          | some d' => rw [hd'] at h; simp at h; rw [← h, hreset _ _ hd', this]
+
 /--
-Full-strength statement: `validate = ok → merge = some r → ∀ leaf path p ∉ ⟦M⟧∩⟦W⟧, p ∉ ⟦R⟧ →
-r.dst.getPath p = dst.getPath p`.  What is proved for all inputs is its instance for every path whose
-*top-level* field no update / reset path starts with (below); for a path under a field that update
-paths pass through see `C05_frame` above (non-nil update mask, any depth); for a nil update mask with
-nested writable paths the statement at depth rests on the K1/K2 ties and the path-by-path monitor.
+The frame clause at depth is `C05_frame` (non-nil update mask) and `C05_frame_nil_mask` (nil update
+mask) above, under tree hypotheses (unique keys, kind agreement).  The two statements below need none
+of those: they are the instances for every path whose *top-level* field no update / reset (resp.
+writable / reset) path starts with.
 
 **C05_frame_toplevel.**  For every schema, message type, stored and written message, writable, reset
 and non-empty update mask (paths non-empty, without empty segments): a field `k` that is the first
@@ -356,6 +707,23 @@ example : NoDupAlong ["f", "d"] wStored ∧ NoDupAlong ["f", "d"] (.cons "g" (.s
   · simp [NoDupAlong, wStored, Fields.keys, Fields.get]
   · simp [NoDupAlong, Fields.keys, Fields.get]
   · simp [Agree, Fields.get]
+/-- The hypotheses of `C05_named_path` / `C05_scalar_in` / `C05_message_list` hold for `f.c` under the
+update mask `{f.c, f.c.x}`-free `{f.c}` with writable `{f}`; those of `C05_inside_written` for `f` ++ `c`. -/
+example : ["f", "c"] ∈ [["f", "c"], ["g"]] ∧ (∀ q ∈ [["f", "c"], ["g"]], strictPrefix q ["f", "c"] = false) ∧
+    (∃ w ∈ [["f"]], w <+: ["f", "c"]) ∧ Clean [["f"]] ∧ NonNil [["f"]] := by decide
+example : NoDupAlong ["f", "c"] wStored ∧ NoDispAlong wSchema 0 ["f", "c"] := by
+  refine ⟨by simp [NoDupAlong, wStored, Fields.keys, Fields.get], ?_⟩
+  simp only [NoDispAlong, and_true]
+  refine ⟨fun n => ?_, fun n => ?_⟩ <;>
+  · unfold Schema.sibs
+    split
+    · next fd h =>
+        have : fd.oneof = 0 := by
+          have hm := List.mem_of_find?_eq_some h
+          simp [Schema.fields, Schema.child, Schema.field, wSchema] at hm
+          rcases hm with rfl | rfl <;> rfl
+        simp [this]
+    · simp
 /-- The former witnesses now behave: `{f.c}` without `f` in the written message clears only `f.c`. -/
 example : (merge wSchema 0 ⟨none, some [["f", "c"]], none⟩ wStored (.cons "g" (.sc "i9") .nil)).map (·.dst)
     = some (.cons "f" (.msg (.cons "d" (.sc "i2") .nil)) (.cons "g" (.sc "i7") .nil)) := by decide
